@@ -8,6 +8,9 @@ Line protocol of the `validate` correspondence stream (one direction: implementa
   E = `<code> <rdfiHex> <checkDigitHex> <amount> <traceHex> <addendaCount>`
   I = `<count> <hash> <debit> <credit>`  (controls of the IAT batches)
 answer: `accept` | `reject`.  Opaque conjuncts (`extraOK`, `headerOK`, `controlOK`) are taken as true.
+
+`validateiat <opts:18 bits> B`  (one IAT batch, same `B` syntax, the company identification fields unused):
+`IATBatch.Validate` vs `iatBatchValidate`, same direction.
 -/
 namespace Ach.ValidateDriver
 open Ach Ach.Driver
@@ -67,6 +70,14 @@ def run (args : List String) : String :=
         | none => "bad-op"
       | _ => "bad-op"
     | _, _, _, _, _, _ => "bad-op"
+  | _ => "bad-op"
+
+def runIat (args : List String) : String :=
+  match args with
+  | bits :: rest =>
+    match parseBatches 1 rest with
+    | some ([b], []) => if iatBatchValidate (optsOfBits bits) b then "accept" else "reject"
+    | _ => "bad-op"
   | _ => "bad-op"
 
 end Ach.ValidateDriver
